@@ -419,6 +419,9 @@ def run(prog, tier, extra=None):
     include(res, prog, tier, extra, "c20", ["C20.inversion", "C20.reacquire"],
             "a handler blocked in a lock-order cycle does not return normally",
             keep=lambda f: any(part.replace("::{closure#0}", "") in live_plain for part in f.key.split("|")[1:2]))
+    # "local state used by honest peers is unaffected by rejected input": a refused transaction must leave no input reservations behind
+    include(res, prog, tier, extra, "c14", ["C14.reserve", "C14.release-only-removed"],
+            "input reservations are made only for a transaction that enters the pool and released only for one that left it")
     res.extra["fallible_functions"] = len(fallible)
     res.explanation = (
         "Decides absence, on the call graph reachable from the three peer-driven event handlers, of explicit crash shapes whose trigger is peer-chosen by construction: "
